@@ -63,5 +63,57 @@ def run(ctx):
                      'used at the next reset / re-initialisation)' % (f, bad))
         else:
             ctx.ob(props, 'RF2-refusal', f, site, 'no path stores and then refuses')
+    accepted_value(ctx, writers)
     ctx.inst('RF2-refusal.functions', n)
     ctx.require_min(sorted(set(p for v in UNIT_PROPS.values() for p in v)), 'RF2-refusal', n, MIN_FUNCS, 'parameter Write functions that delegate the store')
+
+
+WIDTH = {'COTInt8Write': 8, 'COTInt16Write': 16, 'COTInt32Write': 32}
+
+
+def accepted_value(ctx, writers):
+    """RF2-accept - the converse: an ACCEPTED write stores exactly the value the client wrote.  Each writer is folded
+    with the written value bound (values with the top bits set, small values, zero) and everything else unbound; on
+    every path that returns success, the value handed to the delegated basic store is the written value - not a masked,
+    shifted or stale one (a COB-ID stored without its valid / producer bit silently enables the service)."""
+    m = ctx.m
+    NONE = m.enum('CO_ERR_NONE')
+    n = 0
+    for f in writers:
+        fn = m.funcs[f]
+        props = UNIT_PROPS.get(fn.unit.split('/')[-1])
+        if props is None:
+            continue
+        for V in (0x80000101, 0xC0000080, 0x00000181, 0x1234, 5, 0):
+            pe = PEval(m, f)
+            pe.record_sets = False
+            pe.store_filter = lambda k, fld: False
+            inputs = dict((prm[0], 1) for prm in fn.params if is_pointer(prm[2]))
+            for b in BASIC:
+                inputs['call:' + b] = NONE
+            inputs.update({'call:COTmrDelete': 0, 'call:COTmrCreate': 5, 'call:CODictRdLong': NONE, 'call:CODictRdByte': NONE,
+                           'call:CODictRdWord': NONE, 'call:COTInt32Read': NONE, 'call:COTInt16Read': NONE, 'call:COTInt8Read': NONE,
+                           'call:CONmtHbConsActivate': NONE, '*buffer': V})
+            trs = pe.run(inputs)
+            for t in trs:
+                if t.ret != NONE:
+                    continue
+                st = [c for c in t.calls() if c[1] in BASIC]
+                if len(st) != 1:
+                    continue          # roll-backs (two stores) are the refusal rule's business
+                c = st[0]
+                got = c[5].get(2) if len(c) > 5 and isinstance(c[5], dict) else None
+                if got is None:
+                    continue
+                mask = (1 << WIDTH[c[1]]) - 1
+                n += 1
+                site = '%s: written %Xh' % (f, V & mask)
+                if (got & mask) == (V & mask):
+                    ctx.ob(props, 'RF2-accept', f, site, 'stored as written')
+                else:
+                    ctx.ob(props, 'RF2-accept', f, site, None)
+                    ctx.find(props, 'RF2-accept', f, 'stored-differs', m.loc(f, c[4]) if len(c) > 4 else m.loc(f, fn.line),
+                             '%s accepts the write of %Xh but stores %Xh: the entry reads back - and takes effect - with a value the '
+                             'client did not write (e.g. a COB-ID without its valid bit)' % (f, V & mask, got & mask))
+    ctx.inst('RF2-accept.rows', n)
+    ctx.require_min(sorted(set(p for v in UNIT_PROPS.values() for p in v)), 'RF2-accept', n, 12, 'accepted-write rows with a known stored value')
